@@ -66,6 +66,19 @@ def roots(tier, seed):
                                     dev = dev and n <= 2
                                 case["explore"] = 1 if dev else 0
                                 out.append(case)
+    # boxes made of the largest finite numbers ("no bound" in some code bases): xu - xl and xu + xl overflow
+    for n in ns:
+        for pats in [("fmax",) * n, ("fmaxup",) * n, (("fmax", "wide", "fmaxup")[:n] if n > 1 else ("fmax",))]:
+            for where in ["in", "on", "out"]:
+                for cons in ["none", "lin_le", "ball_le"]:
+                    for scale in (False, True):
+                        case = alpha.base_case(n, pats, where, "quad", cons,
+                                               options={"scale": scale, "maxfev": 20 * n + 10},
+                                               callback={"sig": "xk", "behav": "passive"})
+                        case["monitors"] = ["pts"]
+                        case["explore"] = 0
+                        case["tag"]["special"] = "largest-finite-bounds"
+                        out.append(case)
     from .. import cover
     out += cover.roots_for(tier, monitors=["pts"])
     return alpha.permute(out, seed)
